@@ -1,6 +1,6 @@
 #!/bin/bash
 # tools/runall.sh [tier] [seed...]: run every registered check, one summary line each
-cd /verif
+cd "$(dirname "$0")/.."
 tier=${1:-quick}; shift
 seeds=${@:-1}
 ids=$(python3 -c "import json;print(' '.join(c['property_id'] for c in json.load(open('MANIFEST.json'))['checks']))")
